@@ -960,8 +960,8 @@ func scaleCase(c *hc.Ctx, tag string, p *canvas.Path, off float64, d []float64, 
 			replayS["base_path"] = p.String()
 			kind := "scale-dependence:judged"
 			if k <= -10 && hasCubic(base) && kindS == "inverse-arc-length-accuracy" {
-				// known finding C05-scale-dependence-cubic-epsilon: solveQuadraticFormula's absolute
-				// Epsilon changes the inflection points found for cubics once coordinates are ~1e-3
+				// regression class of C05-scale-dependence-cubic-epsilon (repaired by 33b2fe8):
+				// absolute zero tests on the inflection coefficients of cubics at coordinates ~1e-3
 				kind = "scale-dependence:cubic-below-2^-10"
 			}
 			fail(c, kind, fmt.Sprintf("holds for the path at scale 1 but fails at scale 2^%d (%s): %s", k, kindS, descS), replayS)
@@ -990,17 +990,19 @@ func scaleCase(c *hc.Ctx, tag string, p *canvas.Path, off float64, d []float64, 
 	for _, g := range base {
 		ext = math.Max(ext, math.Max(math.Abs(g.End.X), math.Abs(g.End.Y)))
 	}
-	if len(a) != len(b) {
-		c.Count("scale:structure-differs (judged separately)")
+	// compare the two ends of every returned piece (the number of commands inside a piece may
+	// differ by a segment shorter than the builder's absolute Epsilon, which is dropped at one scale
+	// and kept at the other)
+	pa, pb := hc.Subpaths(a), hc.Subpaths(b)
+	if len(pa) != len(pb) {
+		c.Count("scale:number of pieces differs (both judged separately)")
 		return
 	}
 	worst := 0.0
-	for i := range a {
-		if a[i].Kind != b[i].Kind {
-			c.Count("scale:structure-differs (judged separately)")
-			return
+	for i := range pa {
+		for _, e := range [][2]hc.P2{{pa[i][0].End, pb[i][0].End}, {pa[i][len(pa[i])-1].End, pb[i][len(pb[i])-1].End}} {
+			worst = math.Max(worst, math.Max(math.Abs(e[1].X/s-e[0].X), math.Abs(e[1].Y/s-e[0].Y)))
 		}
-		worst = math.Max(worst, math.Max(math.Abs(b[i].End.X/s-a[i].End.X), math.Abs(b[i].End.Y/s-a[i].End.Y)))
 	}
 	maxSeg := 0.0
 	for _, sp := range hc.Subpaths(base) {
@@ -1029,11 +1031,13 @@ func scaleCase(c *hc.Ctx, tag string, p *canvas.Path, off float64, d []float64, 
 	if rel*1e6 > maxScaleDevPPM {
 		maxScaleDevPPM = rel * 1e6
 	}
-	// Power-of-two scaling is exact in floating point, so a deviation comes from absolute constants
-	// in the code. When the case satisfies the property at scale 1, every cut there is within 1% of
-	// the longest segment of its true position; if the scaled result deviates by more than 2% some
-	// cut at that scale is off by more than 1% (triangle inequality): the result depends on the unit.
-	if kind0 == "" && rel > 0.02 {
+	// Power-of-two scaling is exact in floating point, so a deviation can only come from absolute
+	// constants in the code. Since 33b2fe8 (cubic inflection coefficients normalised) the unchanged
+	// tree shows none at all (observed maximum below 1e-9 of the longest segment over all sweeps), so
+	// the law is checked at 1e-6 of the longest segment, whatever the verdict at scale 1. A deviation
+	// on a path with cubics at scale <= 2^-10 that stays below 10% is named after the repaired defect
+	// (regression class of 33b2fe8).
+	if rel > 1e-6 {
 		kind := "scale-dependence:positions"
 		if k <= -10 && hasCubic(base) && rel <= 0.1 {
 			kind = "scale-dependence:cubic-below-2^-10"
